@@ -62,7 +62,7 @@ pub fn instances() -> Vec<Inst> {
     for t in ["0", "7", "17", "1_000", "007", "0b101", "0B1_0", "0b0", "0o17", "0O1_7", "0x1F", "0XaB_c", "0xdead_BEEF", "0x0", "340282366920938463463374607431768211455"] {
         v.push(inst(t, "INT_NUMBER"));
     }
-    for t in ["1.5", "1.", ".5", "0.0", "1e3", "1E+3", "1.5e-3", ".5e1", "1_0.0_1", "12.e2", "1e0", "6.02E23"] {
+    for t in ["1.5", "1.", ".5", "0.0", "1e3", "1E+3", "1.5e-3", ".5e1", "1_0.0_1", "12.e2", "1e0", "6.02E23", "0e3", "0E3", "0E-3", "0.E1", "00e1", "0_0E1"] {
         v.push(inst(t, "FLOAT_NUMBER"));
     }
     for unit in ["ns", "us", "µs", "ms", "s", "dt", "im"] {
@@ -94,10 +94,12 @@ pub fn instances() -> Vec<Inst> {
     }
     v.push(Inst { text: "// c".into(), expect: vec![], line: true, header: false });
     v.push(Inst { text: "//".into(), expect: vec![], line: true, header: false });
-    for t in ["pragma a b", "#pragma a b", "pragma\ta"] {
+    v.push(Inst { text: "// é√ 変".into(), expect: vec![], line: true, header: false });
+    v.push(Inst { text: "/* é√ */".into(), expect: vec![], line: false, header: false });
+    for t in ["pragma a b", "#pragma a b", "pragma\ta", "pragma é√ x"] {
         v.push(Inst { text: t.into(), expect: vec![("PRAGMA".into(), t.into())], line: true, header: false });
     }
-    for t in ["@ann a b", "@a", "@é 1"] {
+    for t in ["@ann a b", "@a", "@é 1", "@ann é√変"] {
         v.push(Inst { text: t.into(), expect: vec![("ANNOTATION".into(), t.into())], line: true, header: false });
     }
     for t in ["OPENQASM 3.0", "OPENQASM 3", "OPENQASM  2.0", "OPENQASM\t3.1"] {
@@ -111,7 +113,7 @@ pub fn instances() -> Vec<Inst> {
 pub fn instances_with_units() -> Vec<Inst> {
     let mut v = instances();
     let ints = ["0", "7", "17", "1_000", "1_0", "007", "0b101", "0b1_01", "0B1_0", "0o17", "0o1_7", "0x1F", "0x1_F", "0xA_b", "0x_1", "0XaB_c", "0xdead_BEEF", "340282366920938463463374607431768211455"];
-    let floats = ["1.5", "1.", ".5", "0.0", "1e3", "1E+3", "1.5e-3", ".5e1", "1_0.0_1", "12.e2", "1e0", "6.02E23", "20.", "0."];
+    let floats = ["1.5", "1.", ".5", "0.0", "1e3", "1E+3", "1.5e-3", ".5e1", "1_0.0_1", "12.e2", "1e0", "6.02E23", "20.", "0.", "0e3", "0E3", "0E-3", "1E3", "2E-1"];
     for unit in ["ns", "us", "µs", "ms", "s", "dt", "im"] {
         for (nums, k) in [(&ints[..], "INT_NUMBER"), (&floats[..], "FLOAT_NUMBER")] {
             for num in nums {
@@ -131,7 +133,7 @@ pub fn instances_with_units() -> Vec<Inst> {
     v
 }
 
-pub const SEPS: &[&str] = &[" ", "\n", "\t", "/*c*/", "//c\n", "  \n ", ""];
+pub const SEPS: &[&str] = &[" ", "\n", "\t", "/*c*/", "//c\n", "  \n ", "", "//é√\n", "/*√é*/"];
 
 fn wordish(c: char) -> bool {
     c.is_alphanumeric() || c == '_' || !c.is_ascii() || matches!(c, '.' | '$' | '#' | '@' | '"' | '\'')
